@@ -64,7 +64,10 @@ def c11_cases(tier):
         "return True")
     for tag, expr, _ in pool:
         # (a) compiled or not (symbolic flag), |source| <= 3
-        body = ("p = %s\nif comp:\n    p.compile()\n" % expr) + check
+        # other compiled instances live and die before p is created (anything the library remembers about an instance must not
+        # outlive it: CPython hands the freed addresses to the next objects)
+        body = ("_qs = [Pregex('zq') for _k in range(20)]\nfor _q in _qs:\n    _q.compile()\n_q = None\n_qs = None\n"
+                "p = %s\nif comp:\n    p.compile()\n" % expr) + check
         cs.append(engine.raw_case(body, [("src", "str"), ("comp", "bool")], ["1 <= len(src) and len(src) <= 3"],
                                   "C11 %s %s: matching methods == re, compiled or not (symbolic), 1 <= |source| <= 3" % (tag, expr),
                                   concrete=[(x, c) for x in SRC_POINTS for c in (False, True)]))
